@@ -616,7 +616,12 @@ class OrthorectificationHelper(object):
         bounds, coords = self.bounds_to_rectangle(bounds)
         filled_coords = _linear_fill(coords, fill_interval=1)
         pixel_coords = self.proj_helper.ortho_to_pixel(filled_coords)
-        pixel_bounds = self.proj_helper.get_pixel_array_bounds(pixel_coords)
+        # the source region has to CONTAIN the projected rectangle: round outwards
+        # (the upper limits are exclusive)
+        pixel_bounds = numpy.array(
+            (numpy.floor(numpy.nanmin(pixel_coords[:, 0])), numpy.ceil(numpy.nanmax(pixel_coords[:, 0])) + 1,
+             numpy.floor(numpy.nanmin(pixel_coords[:, 1])), numpy.ceil(numpy.nanmax(pixel_coords[:, 1])) + 1),
+            dtype=numpy.int64)
         return bounds, self.validate_bounds(pixel_bounds)
 
     def _initialize_workspace(self, ortho_bounds, final_dimension=0):
